@@ -1130,10 +1130,76 @@ def rule_scale(repo: Repo, rep: Report) -> int:
 # WAGNER
 # ---------------------------------------------------------------------------
 
+def wagner_evaluated(repo: Repo):
+    """WagnerSoftDecisionDecoder.forward evaluated with own arithmetic for the (4,3) and (5,4) single-parity-check codes on
+    real words without ties (single word, batch, two blocks in one row, a batch of rank 3, return_errors=True): the
+    message must be the first k bits of the maximum-likelihood codeword - the even-weight word c maximising
+    sum (1 - 2 c_i) r_i, found by enumeration - a zero soft value counting as bit 0.  Returns (status, detail) or None."""
+    import itertools
+
+    from ..constfold import PySeq, Unfoldable
+    from ..frag import FragRaise, FragReturn, run_fragment
+
+    wc = repo.cls(WG, "WagnerSoftDecisionDecoder")
+    fwd = repo.method(wc, "forward")
+    funcs = {f"self.{nm}": m.node for nm, m in wc.methods.items() if nm not in ("forward", "__init__")}
+    for mi_ in repo.modules.values():
+        if mi_.relpath == "kaira/models/fec/utils.py":
+            funcs.update({nm: f.node for nm, f in mi_.functions.items()})
+
+    def ml(r):
+        best, bw = None, None
+        for c in itertools.product((0, 1), repeat=len(r)):
+            if sum(c) % 2:
+                continue
+            sc = sum((1 - 2 * ci) * ri for ci, ri in zip(c, r))
+            if best is None or sc > best:
+                best, bw = sc, c
+        return list(bw)
+
+    cases = 0
+    for n_ in (4, 5):
+        k_ = n_ - 1
+        base = [[0.9, -0.2, 1.1, 0.5, -0.7], [-1.0, -0.3, 0.2, 2.0, 0.6], [-0.4, -0.6, -0.8, 0.15, -1.2], [0.05, 1.5, -2.5, 0.7, -0.35], [-0.9, 0.8, -0.75, 0.65, 0.1], [0.0, -0.5, 1.25, -0.3, 0.45], [2.0, 1.0, 0.5, 0.25, 0.125], [0.0, -0.5, 1.25, 0.3, 0.45]]
+        words = [w[:n_] for w in base]
+        layouts = [("a single word", words[0], [ml(words[0])[:k_]][0]), ("a batch of 8 words", words, [ml(w)[:k_] for w in words]), ("two blocks in one row", [words[1] + words[2], words[3] + words[4]], [ml(words[1])[:k_] + ml(words[2])[:k_], ml(words[3])[:k_] + ml(words[4])[:k_]]), ("a batch of rank 3", [[words[0], words[1]], [words[2], words[3]]], [[ml(words[0])[:k_], ml(words[1])[:k_]], [ml(words[2])[:k_], ml(words[3])[:k_]]])]
+        for what, rec, want in layouts:
+            for kw in ({}, {"return_errors": True}):
+                try:
+                    run_fragment(fwd.body, {"received": rec, "args": PySeq([]), "kwargs": dict(kw)}, {"self.code_length": n_, "self.code_dimension": k_}, funcs=funcs, materialise=True, max_steps=2000000, attrs_live=True)
+                    return None
+                except FragReturn as ret:
+                    got = ret.value
+                except (Unfoldable, FragRaise, TypeError, IndexError, ValueError, KeyError):
+                    return None
+                if kw:
+                    if not (isinstance(got, list) and len(got) == 2):
+                        return None
+                    got = got[0]
+
+                def num(z):
+                    return [num(t) for t in z] if isinstance(z, list) else int(z)
+
+                try:
+                    g_ = num(got)
+                except (TypeError, ValueError):
+                    return None
+                if g_ != want:
+                    return VIOLATION, f"({n_},{k_}) single-parity-check code, {what}{' with return_errors=True' if kw else ''}: the soft word(s) {str(rec)[:110]} are decoded to {str(g_)[:80]}; the first {k_} bits of the maximum-likelihood (even-weight, maximum correlation) codeword(s) are {str(want)[:80]}"
+                cases += 1
+    return OK, f"{cases} decodings ((4,3) and (5,4) codes; single word, batch, two blocks per row, rank-3 batch; with and without error patterns) equal the first k bits of the enumerated maximum-likelihood codeword; a zero soft value counts as bit 0"
+
+
 def rule_wagner(repo: Repo, rep: Report) -> int:
     wc = repo.cls(WG, "WagnerSoftDecisionDecoder")
     fi = repo.method(wc, "forward")
     n = 0
+    wev_ = wagner_evaluated(repo)
+    if wev_ is not None:
+        rep.add("WAGNER", fi, "forward evaluated on real words of the (4,3) and (5,4) single-parity-check codes against enumerated ML decoding", wev_[0], wev_[1], node=fi.node)
+        from .c20 import rule_tlist
+
+        return 8 + rule_tlist(repo, rep, [wc])
     a = assigns(fi, "hard_decisions")
     form(rep, "WAGNER", fi, a[0].value if a else None, ["(received < 0).to(torch.int)", "(received < 0).int()", "(received < 0).long()", "(received < 0).to(torch.long)"], "hard decision: negative LLR -> bit 1", "bit 1 iff the LLR is negative")
     a = assigns(fi, "parity_sums")
